@@ -27,7 +27,7 @@ CLAIM = dict(
          "conditions of memory safety and of agreement with inflate's verdict; output byte equality is not decided. "
          "Also: the fast path's margins and bit budget, and the overlap rule of copy_match_back.",
     note="Trusted: rustc MIR; the rejection table (rules/decoders.py), justified-abort table; host target.",
-    technique="sibling validation-set comparison + cut-set guard analysis over rustc MIR",
+    technique="sibling validation-set and decision-set comparison (inflate vs inflateBack) + cut-set / must-pass-through guard analysis over rustc MIR",
 )
 
 BACK = decoders.BACK
